@@ -694,6 +694,8 @@ def _fmt_piece(a, spec):
     if hasattr(a, '__sx_fmt_int__') and conv in 'di':
         return _fmt_piece(a.__sx_fmt_int__(), spec)
     if _isinstance(a, Sym):
+        if conv in 'sr':
+            return '<symbolic %s>' % _type(a).__name__     # only used in messages
         raise Unsupported('format of %r' % (_type(a),))
     return ('%' + spec[1:]) % (a,)
 
